@@ -23,6 +23,45 @@ def boundaries(data, key, piece=4096):
     return out
 
 
+def repository_level(rnd):
+    import asyncio
+    from replicat.repository import Repository
+    from replicat.backends.local import Local
+    data = rnd.randbytes(60_000)
+    problems = []
+
+    async def lengths(root, encrypted, tag):
+        r = Repository(Local(root / tag), concurrent=2, quiet=True, cache_directory=None)
+        with lib.quiet():
+            res = await r.init(password=b'pw' if encrypted else None,
+                               settings={'encryption': {'kdf': dict(lib.FAST_KDF)} if encrypted else None, 'chunking': {'min_length': M_MIN, 'max_length': M_MAX}})
+            r2 = Repository(Local(root / tag), concurrent=2, quiet=True, cache_directory=None)
+            await r2.unlock(password=b'pw' if encrypted else None, key=r.serialize(res.key) if encrypted else None)
+            (root / f'{tag}.bin').write_bytes(data)
+            snap = await r2.snapshot(paths=[root / f'{tag}.bin'])
+            key = r2.props.private['chunker_params'] if encrypted else None
+            await r2.close()
+        await r.close()
+        parts = sorted(snap.data['files'][0]['chunks'], key=lambda c: c['counter'])
+        got, pos = [], 0
+        for c in parts:
+            pos += c['range'][1] - c['range'][0]
+            got.append(pos)
+        want = boundaries(data, key)
+        if got != want:
+            problems.append({'problem': 'the repository does not cut where its own chunker key cuts', 'repository': tag, 'encrypted': encrypted,
+                             'first_cuts': got[:4], 'key_cuts': want[:4]})
+        return got
+
+    with lib.scratch('vf_c11_') as root:
+        a = asyncio.run(lengths(root, True, 'a'))
+        b = asyncio.run(lengths(root, True, 'b'))
+        c = asyncio.run(lengths(root, False, 'plain'))
+        if a == b or a == c:
+            problems.append({'problem': 'repositories with different chunker keys cut the same data identically', 'a_equals_b': a == b, 'a_equals_plain': a == c})
+    return problems
+
+
 def main():
     payload = lib.read_payload()
     tier, seed = payload.get('tier', 'quick'), int(payload.get('seed', 0))
@@ -81,6 +120,16 @@ def main():
                 failures.append({'id': f'suffix{c}', 'class': None, 'case': case, 'detail': 'chunks differ after a common boundary'})
         if len(samples) < 3:
             samples.append(dict(case, boundaries=len(base)))
+    # repository level: the boundaries a REPOSITORY cuts are the ones its own chunker key gives (checked against the adapter
+    # driven directly with the key's chunker_params), so independent keys and unencrypted repositories cut differently
+    try:
+        for prob in repository_level(rnd):
+            failures.append({'id': 'repository_key', 'class': None, 'case': {'level': 'repository'}, 'detail': prob})
+        cases += 3
+    except Exception as e:
+        import traceback
+        failures.append({'id': 'repository_key', 'class': None, 'case': {'level': 'repository'},
+                         'detail': {'problem': 'exception', 'error': f'{type(e).__name__}: {e}'[:200], 'tb': traceback.format_exc()[-500:]}})
     lib.emit({'status': 'ok', 'cases': cases, 'distinct': cases, 'failures': failures[:10], 'samples': samples,
               'exhaustive': False, 'reproduced': bool(failures)})
 
